@@ -34,8 +34,8 @@ structure St where
 /-- the float part of `DoCheck` (same binary64 operations as the Go code) -/
 def classify (T : Float) (statNs b : Nat) : Req :=
   if b = 0 then .zero
-  else if T ≤ 0.0 then .over
-  else if b.toFloat > T then .over
+  else if T ≤ 0.0 then .excess
+  else if b.toFloat > T then .excess
   else .norm (Float.ceil (b.toFloat / T * statNs.toFloat)).toUInt64.toNat
 
 def ceilDiv (a b : Nat) : Nat := (a + b - 1) / b
@@ -93,8 +93,7 @@ def validTicks (ts : List String) : Bool :=
   ts.all fun t => if t.startsWith "tick:" then (t.drop 5).toString.toNat?.isSome else true
 
 def mkCfg (s : St) : Cfg :=
-  { maxQ := s.maxQ, last := s.last,
-    ths := s.decls.toList.map fun d => Th.init d.1 (classify s.T s.statNs d.2) }
+  Cfg.start s.maxQ s.last (s.decls.toList.map fun d => (d.1, classify s.T s.statNs d.2))
 
 def knownOr (tainted : Option String) (why : String) : String :=
   match tainted with
@@ -106,7 +105,7 @@ def knownOr (tainted : Option String) (why : String) : String :=
 def judgeBlock (s : St) (tainted : Option String) (prevMax now : Int) (b : Nat) : String :=
   match classify s.T s.statNs b, exactIv s.tbits b s.statNs with
   | .zero, _ => "bad zero-batch-blocked"
-  | .over, _ => "ok"
+  | .excess, _ => "ok"
   | .norm ivF, some ivX =>
     if prevMax + ivX - now > s.maxQ then "ok"
     else if prevMax + ivF - now > s.maxQ then "?"
@@ -147,7 +146,7 @@ def step (oracle : Bool) (s : St) (ts : List String) (line : String) : St × Opt
             | _ =>
               match cls, exactIv s.tbits b s.statNs with
               | .zero, _ => if obs = .pass then "ok" else "bad zero-batch-waits"
-              | .over, none => "bad admitted-with-threshold<=0"
+              | .excess, none => "bad admitted-with-threshold<=0"
               | cls, some ivX =>
                 let ivF : Int := match cls with | .norm iv => iv | _ => ivX
                 if (match obs with | .wait w => decide (w ≤ 0) | _ => false) then "bad nonpositive-wait"
@@ -196,13 +195,13 @@ def step (oracle : Bool) (s : St) (ts : List String) (line : String) : St × Opt
             | .wait w, _, _ => if w ≤ 0 then some "bad nonpositive-wait" else if w > s.maxQ then some "bad wait>max" else
                 (match cls with | .zero => some "bad zero-batch-waits" | _ => none)
             | .block, .zero, _ => some "bad zero-batch-blocked"
-            | .pass, .over, none => some "bad admitted-with-threshold<=0"
+            | .pass, .excess, none => some "bad admitted-with-threshold<=0"
             | _, _, _ => none
           -- admitted requests sorted by pass time: (p, ivX, ivF)
           let adm := rows.filterMap fun (now, _, r, cls, x) =>
             match r.passAt now, cls, x with
             | some p, .norm ivF, some ivX => some (p, (ivX : Int), ivF)
-            | some p, .over, some ivX => some (p, (ivX : Int), (ivX : Int))
+            | some p, .excess, some ivX => some (p, (ivX : Int), (ivX : Int))
             | _, _, _ => none
           let adm := adm.mergeSort fun a b => a.1 ≤ b.1
           let (_, spX, spF) := adm.foldl (fun (acc : Int × Bool × Bool) e =>
